@@ -3,7 +3,7 @@ import HappyModel.Proto
 C01 Spec: a decidable predicate over the *trace a harness can record from outside the engine*:
 
     c <tag> <time> <target> <kind> <daemon> <clock>   a plain event was created (and scheduled) at <clock>
-    y <tag> <pid> <time> <daemon> <clock>             a process yielded a delay: continuation due at <time>
+    y <tag> <pid> <time> <daemon> <clock> <ent>       a process of <ent> yielded a delay: continuation due at <time>
     x <tag>                                           cancel() was called on that event
     C <ent> / U <ent>                                 entity crashed / restored
     S|K <clock> <ent> <kind> <tag> <evtime>           plain event delivered (handler entered) at <clock>
@@ -48,8 +48,8 @@ def parse (body : List String) : Trace :=
         match toks l with
         | ["c", tag, time, tgt, _, dm, clk] =>
           { t with created := ⟨natD tag, natD time, natD tgt, natD dm != 0, natD clk, pos⟩ :: t.created }
-        | ["y", tag, _, time, dm, clk] =>
-          { t with created := ⟨natD tag, natD time, 1000000, natD dm != 0, natD clk, pos⟩ :: t.created }
+        | ["y", tag, _, time, dm, clk, ent] =>
+          { t with created := ⟨natD tag, natD time, natD ent, natD dm != 0, natD clk, pos⟩ :: t.created }
         | ["x", tag] => { t with cancels := (natD tag, pos) :: t.cancels }
         | ["C", e] => { t with crashes := (natD e, pos) :: t.crashes }
         | [k, clk, _, _, tag, evt] =>
